@@ -450,6 +450,13 @@ func (ex *Exec) buildReplayTest(r *oblResult) (string, string, error) {
 	}
 	var src strings.Builder
 	fmt.Fprintf(&src, "package %s\n\n// Replay of obligation %s\n// (%s, %s)\n// generated by goircvc from a solver counterexample.\n\nimport (\n\t\"fmt\"\n\t\"testing\"\n", fn.Pkg.Pkg.Name(), r.O.Name, r.O.Pos, r.O.Text)
+	postCheck := ""
+	if !strings.HasPrefix(r.O.Kind, "panic:") {
+		postCheck = ex.goPostCheck(r.O)
+	}
+	if strings.Contains(postCheck, "strings.") {
+		src.WriteString("\t\"strings\"\n")
+	}
 	if needTime {
 		src.WriteString("\t\"time\"\n")
 	}
@@ -473,12 +480,13 @@ func (ex *Exec) buildReplayTest(r *oblResult) (string, string, error) {
 		fmt.Fprintf(&src, "\t%s\n", call)
 	}
 	src.WriteString("\tfmt.Println(\"REPLAY-RETURNED\")\n")
-	if !strings.HasPrefix(r.O.Kind, "panic:") {
-		if g := ex.goPostCheck(r.O); g != "" {
-			src.WriteString(g)
-		}
+	if postCheck != "" {
+		src.WriteString(postCheck)
 	}
 	src.WriteString("}\n")
+	if strings.Contains(postCheck, "verifFirstNL") {
+		src.WriteString(goPostHelpers)
+	}
 	return src.String(), testName, nil
 }
 
@@ -514,8 +522,3 @@ func (ex *Exec) withExtraDecls(q string) string {
 	return q[:i] + sb.String() + q[i:]
 }
 
-// goPostCheck compiles the violated ensures clause to Go when it lies in the
-// executable subset; otherwise returns "".
-func (ex *Exec) goPostCheck(o *Obligation) string {
-	return ""
-}
